@@ -544,6 +544,9 @@ def helper_nary_init(I, fd, args):
         inn = gmode.SnocList(sl.rest, sl.suffix)
     elif isinstance(sl, gmode.ConcatList):
         inn = gmode.ConcatList(sl.parts, sl.suffix)
+    elif isinstance(sl, gmode.ReplacedList):
+        inn = gmode.ReplacedList(sl.base, sl.j, sl.new)
+        inn.all_expr = True
     else:
         inn = SList(sl.length, sl.elem, f"copy({sl.tag})", family=sl.family)
         inn.all_expr = True
@@ -555,7 +558,17 @@ def helper_nary_init(I, fd, args):
     return None
 
 
+def helper_list_with_updated(I, fd, args):
+    entries, i, new = args
+    if isinstance(i, RangedIndex) and z3.simplify(i.length).get_id() == z3.simplify(entries.length).get_id():
+        r = gmode.ReplacedList(entries, i.term, new)
+        r.all_expr = getattr(entries, "all_expr", False) and (not isinstance(new, Obj) or _is_expression(I, new))
+        return r
+    _unsupported("list_with_updated_entry_at with an index that is not an enumerate() index of the same list")
+
+
 HELPER_CONTRACTS = {
+    "utilities.list_with_updated_entry_at": (helper_list_with_updated, lambda args: len(args) == 3 and isinstance(args[0], SList)),
     "NAryExpression.__init__": (helper_nary_init, lambda args, I=None: len(args) >= 2 and isinstance(args[0], Obj)
                                 and sum(isinstance(x, StarArgs) for x in args) >= 1),
     "utilities.partition_by_predicate": (lambda I, fd, args: helper_partition(I, fd, args),
@@ -572,7 +585,8 @@ def helper_contract(I, fd, args, kwargs):
         return NotImplemented
     if fd.qualname == "NAryExpression.__init__" and not I.ghost.get("lazy_depth") \
             and not (len(args) > 2 and all(isinstance(x, Obj) for x in args[1:-1])) \
-            and not (len(args) > 2 and isinstance(args[1], StarArgs) and all(isinstance(x, (Obj, StarArgs)) for x in args[2:])):
+            and not (len(args) > 2 and isinstance(args[1], StarArgs) and all(isinstance(x, (Obj, StarArgs)) for x in args[2:])) \
+            and not (len(args) == 2 and isinstance(args[1], StarArgs) and isinstance(args[1].slist, gmode.ReplacedList)):
         return NotImplemented         # constructions at statement level run the real constructor
                                       # (except f(a, *rest): its operand list has no element function)
     I.ghost.setdefault("helper_contracts_used", set()).add(fd.qualname)
